@@ -1,3 +1,4 @@
+//go:debug gotypesalias=0
 package main
 
 import (
